@@ -51,6 +51,12 @@ def strings_HasSuffix (s p : String) : Bool := p.toList.isSuffixOf s.toList
 def strings_Contains (s p : String) : Bool := Gk.isInfixOf p.toList s.toList
 def slices_Contains {α : Type} [BEq α] (xs : List α) (x : α) : Bool := xs.contains x
 def slices_Clone {α : Type} (xs : List α) : List α := xs
+/-- insertion step of the stable sort: before the first element that does not compare smaller -/
+def insertByCmp {α : Type} (cmp : α → α → Int) (t : α) : List α → List α
+  | [] => [t]
+  | x :: xs => if cmp t x ≤ 0 then t :: x :: xs else x :: insertByCmp cmp t xs
+/-- `slices.SortStableFunc(xs, cmp)`: the stable sort (equal elements keep their order) -/
+def slices_SortStableFunc {α : Type} (xs : List α) (cmp : α → α → Int) : List α := xs.foldr (insertByCmp cmp) []
 def maps_Clone (m : SMap) : SMap := m
 def maps_Equal (a b : SMap) : Bool := a == b
 def emptyMap : SMap := []
